@@ -51,6 +51,17 @@ Fixpoint nl_eqb (a b : list N) : bool := match a, b with [], [] => true | x :: a
 '''
 
 
+def par_eval(ck: Ck, jobs: list[list[str]], name: str, preamble: str) -> list[list[str] | None]:
+    """Several independent coq_eval jobs at once (each in its own scratch directory, distinct names): the chunks of a
+    correspondence are independent `coqc` runs, so on a loaded machine they need not queue behind each other."""
+    from concurrent.futures import ThreadPoolExecutor
+    if len(jobs) <= 1:
+        return [ck.coq_eval(IMPORTS, j, name=name, preamble=preamble) for j in jobs]
+    with ThreadPoolExecutor(max_workers=4) as ex:
+        futs = [ex.submit(ck.coq_eval, IMPORTS, j, f'{name}{i}', 600, preamble) for i, j in enumerate(jobs)]
+        return [f.result() for f in futs]
+
+
 # ------------------------------------------------------------------------------------------------ doubles
 def dbl_parts(x: float) -> tuple[int, int, int]:
     """(sign, mantissa, exponent) with x = (-1)^s * m * 2^e, canonical as in Flocq (53-bit mantissa for normals)."""
@@ -118,12 +129,13 @@ def corr_mod(ck: Ck) -> None:
     ck.sample({'x': cases[5][0].hex(), 'x % 360.0 (s,m,e)': cases[5][2], 'x % 360.0 % 360.0 (s,m,e)': cases[5][3]})
     bad: list[int] = []
     t = lambda p: f'({p[0]}, {p[1]}, ({p[2]}))'
+    jobs = []
     for lo in range(0, len(cases), 500):
         part = cases[lo:lo + 500]
         lit = coq_list(f'(({"true" if s else "false"}, {m}, ({e})), {t(one)}, {t(two)})' for _, (s, m, e), one, two in part)
-        expr = ('bad_idx (fun c : (bool * Z * Z) * (Z * Z * Z) * (Z * Z * Z) => let \'(i, one, two) := c in let \'(s, m, e) := i in '
-                f'(t3_eqb (show (pymod360 (mk s m e))) one && t3_eqb (show (double360 (mk s m e))) two)%bool) 0%N ({lit})%Z')
-        vals = ck.coq_eval(IMPORTS, [expr], name='mod360', preamble=PRE)
+        jobs.append(['bad_idx (fun c : (bool * Z * Z) * (Z * Z * Z) * (Z * Z * Z) => let \'(i, one, two) := c in let \'(s, m, e) := i in '
+                     f'(t3_eqb (show (pymod360 (mk s m e))) one && t3_eqb (show (double360 (mk s m e))) two)%bool) 0%N ({lit})%Z'])
+    for lo, vals in zip(range(0, len(cases), 500), par_eval(ck, jobs, 'mod360', PRE)):
         if vals is None:
             ck.obligation('correspondence:pymod360', False, 'model could not be evaluated')
             ck.tie_broken.append('correspondence pymod360: model evaluation failed')
@@ -177,12 +189,13 @@ def corr_format(ck: Ck) -> None:
             ck.seen(('fmt', x.hex()))
     ck.sample({'x': cases[40][0].hex(), 'format_float(x)': cases[40][2]})
     bad: list[int] = []
+    jobs = []
     for lo in range(0, len(cases), 500):
         part = cases[lo:lo + 500]
         lit = coq_list(f'(({"true" if s else "false"}, {m}%N, ({e})%Z), [{";".join(str(ord(c)) for c in txt)}]%N)' for _, (s, m, e), txt in part)
-        expr = ('bad_idx (fun c : (bool * N * Z) * list N => let \'(s, m, e) := fst c in '
-                f'nl_eqb (format6 format_float_cfg {{| dneg := s; dm := m; de := e |}}) (snd c)) 0%N {lit}')
-        vals = ck.coq_eval(IMPORTS, [expr], name='format6', preamble=PRE)
+        jobs.append(['bad_idx (fun c : (bool * N * Z) * list N => let \'(s, m, e) := fst c in '
+                     f'nl_eqb (format6 format_float_cfg {{| dneg := s; dm := m; de := e |}}) (snd c)) 0%N {lit}'])
+    for lo, vals in zip(range(0, len(cases), 500), par_eval(ck, jobs, 'format6', PRE)):
         if vals is None:
             ck.obligation('correspondence:format6', False, 'model could not be evaluated')
             ck.tie_broken.append('correspondence format6: model evaluation failed')
@@ -260,13 +273,15 @@ def corr_parse(ck: Ck) -> None:
                  'Definition enc_parsed (p : parsed) : list N := match p with PDefaults => [0%N] | PFields a b c => (1%N :: enc_dec a ++ enc_dec b ++ enc_dec c) end.\n')
     model: list[list[int]] = []
     spaces: list[int] | None = None
+    jobs = []
     for lo in range(0, len(cases), 500):
         part = cases[lo:lo + 500]
         lit = coq_list('[' + ';'.join(str(ord(c)) for c in t) + ']%N' for _, t in part)
         exprs = [f'map (fun s => enc_parsed (parse_vec parse_vec_cfg s)) ({lit} : list (list N))']
         if lo == 0:
             exprs.append('rev (snd (N.iter 70000 (fun p : N * list N => (fst p + 1, if py_space (fst p) then fst p :: snd p else snd p))%N (0%N, [])))')
-        vals = ck.coq_eval(IMPORTS, exprs, name='parsevec', preamble=pre)
+        jobs.append(exprs)
+    for lo, vals in zip(range(0, len(cases), 500), par_eval(ck, jobs, 'parsevec', pre)):
         if vals is None:
             ck.obligation('correspondence:parse_vec_str', False, 'model could not be evaluated')
             ck.tie_broken.append('correspondence parse_vec_str: model evaluation failed')
@@ -819,13 +834,15 @@ def corr_frames(ck: Ck, frames: list[dict]) -> None:
         return
     s = lambda x: '"' + x + '"'
     bad: list[int] = []
+    jobs = []
     for lo in range(0, len(frames), 500):
         part = frames[lo:lo + 500]
         lit = coq_list('(%s, %s, %d, %s, %s)' % (coq_list(f'({s(c)}, 0)' for c in f['classes']), s(f['meth']), f['recv'],
                                                  coq_list(str(i) for i in f['args']), coq_list(str(i) for i in f['changed'])) for f in part)
-        expr = ('bad_idx (fun c : list (string * nat) * string * nat * list nat * list nat => let \'(st, m, r, ar, ch) := c in '
-                'forallb (may_write nat mut_events st {| meth := m; recv := r; args := ar |}) ch) 0%N (' + lit + ')%nat')
-        vals = ck.coq_eval(IMPORTS, [expr], name='frames', preamble=PRE + 'Open Scope string_scope.\n')
+        jobs.append(['bad_idx (fun c : list (string * nat) * string * nat * list nat * list nat => let \'(st, m, r, ar, ch) := c in '
+                     'forallb (may_write nat mut_events st {| meth := m; recv := r; args := ar |}) ch) 0%N (' + lit + ')%nat'])
+    for lo, vals in zip(range(0, len(frames), 500), par_eval(ck, jobs, 'frames', PRE + 'Open Scope string_scope.\n')):
+        part = frames[lo:lo + 500]
         if vals is None:
             ck.obligation('correspondence:frames', False, 'model could not be evaluated')
             ck.tie_broken.append('correspondence frames: model evaluation failed')
@@ -919,15 +936,40 @@ def search_to_angle(ck: Ck) -> None:
         ck.violation(key, f'{route}{tuple(v)!r} gives (pitch, yaw, roll) = {vals!r}', {'route': route, 'values': [x.hex() for x in v]})
 
 
-def theorems_with_axioms(ck: Ck, props_file: str = 'Props/C05.v') -> None:
+def theorems_with_axioms(ck: Ck, props_file: str = 'Props/C05.v'):
+    """Starts the Print Assumptions pass in the background (it only reads the built .vo files and costs ~30 s through
+    Flocq/Reals); the returned function waits for it and records the obligations."""
+    import threading
+    box: list = []
+    th = threading.Thread(target=lambda: box.append(_theorems_job(ck, props_file)), daemon=True)
+    th.start()
+
+    def finish() -> None:
+        th.join()
+        if not box:
+            ck.obligation(f'assumptions:{props_file}', False, 'Print Assumptions job died')
+            ck.tie_broken.append(f'Print Assumptions failed for {props_file}')
+            return
+        _theorems_record(ck, props_file, *box[0])
+    return finish
+
+
+def _theorems_job(ck: Ck, props_file: str):
+    from harness.common import ROCQ
+    names = re.findall(r'^\s*(?:Theorem|Lemma|Corollary)\s+([A-Za-z0-9_\']+)', (ROCQ / props_file).read_text(), re.M)
+    body = 'Require Import SV.Props.C05.\n' + ''.join(f'Print Assumptions {n}.\n' for n in names)
+    try:
+        rc, out = ck.coq_scratch(body, 'assumptions_full')
+    except Exception as e:          # noqa: BLE001 - reported as a failed obligation
+        rc, out = 1, repr(e)
+    return names, rc, out
+
+
+def _theorems_record(ck: Ck, props_file: str, names: list[str], rc: int, out: str) -> None:
     """Same job as Ck.theorems() - one `theorem:<name>` obligation per statement of the Props file with its Print
     Assumptions result - with a parser that also understands axioms whose type is printed on the following line (the
     Reals axioms are).  Done once here instead of calling Ck.theorems() and then repairing its axiom lists: Print
     Assumptions through Flocq/Reals costs ~20 s per pass (helper local to this check)."""
-    from harness.common import ROCQ
-    names = re.findall(r'^\s*(?:Theorem|Lemma|Corollary)\s+([A-Za-z0-9_\']+)', (ROCQ / props_file).read_text(), re.M)
-    body = 'Require Import SV.Props.C05.\n' + ''.join(f'Print Assumptions {n}.\n' for n in names)
-    rc, out = ck.coq_scratch(body, 'assumptions_full')
     if rc != 0:
         ck.obligation(f'assumptions:{props_file}', False, out[-2000:])
         ck.tie_broken.append(f'Print Assumptions failed for {props_file}')
@@ -974,8 +1016,9 @@ def run(ck: Ck) -> None:
     ok_t = ck.translate('AngleSites_gen', c05_sites.translate)
     side = ck.extra.get('translated', {}).get('AngleSites_gen', {})
     built = ok_t and ck.build(['Gen/AngleSites_gen.vo', 'Props/C05.vo'])
+    finish_theorems = None
     if built:
-        theorems_with_axioms(ck)
+        finish_theorems = theorems_with_axioms(ck)
         empty = lambda e: f'match {e} with nil => true | _ => false end'
         res = ck.instance_obligations(IMPORTS, {
             'all_angle_store_sites_safe': 'all_sites_safe angle_sites',
@@ -1017,6 +1060,8 @@ def run(ck: Ck) -> None:
         corr_results(ck, frames, side)
     search_to_angle(ck)
     search_text(ck)
+    if finish_theorems is not None:
+        finish_theorems()
     explain_failures(ck)
 
 
